@@ -49,17 +49,17 @@ pub fn c_count_filter<S: Src>(s: &mut S) {
     chk!(s, ok == (n >= min_obs), "CountFilter: accepted iff count >= threshold");
 }
 
-/// Bounded stand-in: CountFilterSet::summarize over <= 5 observations with u8 labels.
+/// Bounded stand-in: CountFilterSet::summarize over <= 3 observations with u8 labels.
 pub fn c_count_filter_set<S: Src>(s: &mut S) {
     let n = s.usize();
-    s.assume(n <= 5);
+    s.assume(n <= 3);
     let min_obs = s.usize();
     let probe = s.u8();
     let mut items: Vec<(u8, Exts, u8)> = Vec::new();
     let mut union = 0u8;
     let mut probe_seen = false;
     let mut i = 0;
-    while i < 5 {
+    while i < 3 {
         let e = s.u8();
         let d = s.u8();
         if i < n {
@@ -71,7 +71,7 @@ pub fn c_count_filter_set<S: Src>(s: &mut S) {
         }
         i += 1;
     }
-    s.cover(n == 5);
+    s.cover(n == 3);
     let f: CountFilterSet<u8> = CountFilterSet::new(min_obs);
     let (ok, exts, data) = f.summarize(items.into_iter());
     chk!(s, exts.val == union, "CountFilterSet: extensions are the union over the observations");
@@ -91,12 +91,98 @@ pub fn c_count_filter_set<S: Src>(s: &mut S) {
     chk!(s, data.len() <= n, "CountFilterSet: no more labels than observations");
 }
 
+use crate::verif::exts::{any_dir, is_right};
+use crate::verif::kmers::{spec_extend_bits, spec_rc_bits};
+
+fn canon_target<K: KV>(x: &K, b: u8, right: bool, stranded: bool) -> u128 {
+    let t = spec_extend_bits(x, b, right);
+    if stranded {
+        t
+    } else {
+        let y = K::from_bits(t);
+        let rc = spec_rc_bits(&y);
+        if spec_cmp::<K>(t, rc) == Ordering::Less { t } else { rc }
+    }
+}
+
+/// BOUNDED (3 table entries, Kmer4, both strandedness values): remove_censored_exts keeps keys and payloads
+/// and, for every entry, side and base, keeps the extension iff it was present and its (canonicalised)
+/// target k-mer is a key of the table - "removes exactly the extensions whose target is absent".
+pub fn c_remove_censored_3<S: Src>(s: &mut S) {
+    type K = Kmer4;
+    let k0: K = any_kmer(s);
+    let k1: K = any_kmer(s);
+    let k2: K = any_kmer(s);
+    s.assume(k0.bits() < k1.bits() && k1.bits() < k2.bits());
+    let e = [s.u8(), s.u8(), s.u8()];
+    let stranded = s.bool();
+    let idx = s.usize();
+    s.assume(idx < 3);
+    let d = any_dir(s);
+    let b = s.u8();
+    s.assume(b < 4);
+    s.cover(!stranded);
+    let mut v = [(k0, (Exts::new(e[0]), 7u8)), (k1, (Exts::new(e[1]), 8u8)), (k2, (Exts::new(e[2]), 9u8))];
+    remove_censored_exts(stranded, &mut v);
+    chk!(s, v[0].0.bits() == k0.bits() && v[1].0.bits() == k1.bits() && v[2].0.bits() == k2.bits(), "pruning keeps the keys");
+    chk!(s, (v[0].1).1 == 7 && (v[1].1).1 == 8 && (v[2].1).1 == 9, "pruning keeps the payloads");
+    let keys = [k0, k1, k2];
+    let t = canon_target(&keys[idx], b, is_right(d), stranded);
+    let in_keys = t == k0.bits() || t == k1.bits() || t == k2.bits();
+    let was = has(e[idx], is_right(d), b);
+    chk!(
+        s,
+        has((v[idx].1).0.val, is_right(d), b) == (was && in_keys),
+        "pruning keeps an extension iff it was present and its target k-mer is in the table"
+    );
+}
+
+/// BOUNDED (2 valid entries, 3 shard k-mers, Kmer4): the sharded variant keeps an extension iff it was present
+/// and its target is valid or not a k-mer of this shard at all.
+pub fn c_remove_censored_sharded<S: Src>(s: &mut S) {
+    type K = Kmer4;
+    let k0: K = any_kmer(s);
+    let k1: K = any_kmer(s);
+    s.assume(k0.bits() < k1.bits());
+    let a0: K = any_kmer(s);
+    let a1: K = any_kmer(s);
+    let a2: K = any_kmer(s);
+    s.assume(a0.bits() < a1.bits() && a1.bits() < a2.bits());
+    let e = [s.u8(), s.u8()];
+    let stranded = s.bool();
+    let idx = s.usize();
+    s.assume(idx < 2);
+    let d = any_dir(s);
+    let b = s.u8();
+    s.assume(b < 4);
+    s.cover(true);
+    let mut v = [(k0, (Exts::new(e[0]), ())), (k1, (Exts::new(e[1]), ()))];
+    let all = [a0, a1, a2];
+    remove_censored_exts_sharded(stranded, &mut v, &all);
+    chk!(s, v[0].0.bits() == k0.bits() && v[1].0.bits() == k1.bits(), "sharded pruning keeps the keys");
+    let keys = [k0, k1];
+    let t = canon_target(&keys[idx], b, is_right(d), stranded);
+    let valid = t == k0.bits() || t == k1.bits();
+    let in_shard = t == a0.bits() || t == a1.bits() || t == a2.bits();
+    let was = has(e[idx], is_right(d), b);
+    chk!(
+        s,
+        has((v[idx].1).0.val, is_right(d), b) == (was && (valid || !in_shard)),
+        "sharded pruning removes exactly the extensions whose target is in this shard but not valid"
+    );
+}
+
+harness!(f_remove_censored_3, c_remove_censored_3, unwind 12);
+harness!(f_remove_censored_sharded, c_remove_censored_sharded, unwind 12);
+
 macro_rules! bucket_suite {
     ($($m:ident : $ty:ty, $u:expr);* $(;)?) => {
         $( pub mod $m { use super::*; harness!(f_bucket, c_bucket::<$ty, _>, unwind $u); } )*
         pub fn replay(path: &str, s: &mut crate::verif::src::RSrc) -> bool {
             $( if path == concat!(stringify!($m), "::f_bucket") { c_bucket::<$ty, _>(s); return true; } )*
             if path == "f_count_filter" { c_count_filter(s); return true; }
+            if path == "f_remove_censored_3" { c_remove_censored_3(s); return true; }
+            if path == "f_remove_censored_sharded" { c_remove_censored_sharded(s); return true; }
             if path == "f_count_filter_set" { c_count_filter_set(s); return true; }
             false
         }
